@@ -615,7 +615,13 @@ pub(crate) fn c20_oracle(c: &HistCase, st: &mut Stats) -> Verdict {
             );
         }
         let want_pad = if c.spec.padding() == 0 { None } else { Some(c.spec.padding()) };
-        ensure!(hpad.as_ref().ok() == Some(&want_pad), format!("C20:{name}:get_padding"), "get_padding() after the history = {hpad:?}, configured {want_pad:?}");
+        // a padding of 0 may be reported as None or as Some(0) (C14 reads both as "requests no padding")
+        let same = match (&hpad, want_pad) {
+            (Ok(Some(0)), None) | (Ok(None), None) => true,
+            (Ok(got), want) => *got == want,
+            (Err(_), _) => false,
+        };
+        ensure!(same, format!("C20:{name}:get_padding"), "get_padding() after the history = {hpad:?}, configured {want_pad:?}");
     }
     Ok(())
 }
